@@ -222,6 +222,31 @@ class Interp:
         else:
             raise Unsupported(node or pat, "pattern kind %s" % k)
 
+    def bind_refutable(self, pat, val, node=None):
+        """`let PAT = val else { .. }`: bind along the matching path (like `?`, the domain follows the success path of a symbolic Option/Result);
+        returns False when the value is known not to match."""
+        k = pat.get("k")
+        if k == "PTuple" and isinstance(val, tuple) and len(val) == len(pat["ps"]):
+            return all([self.bind_refutable(q, v, node) for q, v in zip(pat["ps"], val)])
+        if k in ("PRef", "PDeref"):
+            return self.bind_refutable(pat["p"], val, node)
+        d = (pat.get("def") or "").split("::")[-1]
+        if k in ("PTupleStruct", "PStruct") and d in ("Some", "Ok", "Err"):
+            subs = pat["ps"] if k == "PTupleStruct" else [f["pat"] for f in pat["fields"]]
+            if isinstance(val, Variant):
+                if val.name != d or len(val.args) != len(subs):
+                    return False
+                return all([self.bind_refutable(q, v, node) for q, v in zip(subs, val.args)])
+            if d in ("Some", "Ok") and len(subs) == 1 and not isinstance(val, (tuple, list, dict)):
+                return self.bind_refutable(subs[0], val, node)
+            raise Unsupported(node or pat, "refutable pattern %s against %r" % (d, val))
+        if k == "Path" or (k == "PPath"):
+            if isinstance(val, Variant):
+                return val.name == d
+            raise Unsupported(node or pat, "refutable pattern %s against %r" % (d, val))
+        self.bind(pat, val, node)
+        return True
+
     def fn_atom(self, name):
         if name not in self.fn_atoms:
             self.fn_atoms[name] = Function(name)
@@ -604,7 +629,8 @@ class Interp:
         rp = peel(n["recv"])
         if len(cands) == 1 and rp.get("k") == "Local" and (rp.get("name") == "self" or self.root_alias.get(rp.get("name")) == "self") and self.inline_depth < 6 \
                 and (cands[0].get("impl_self") or "") == (self.body.get("impl_self") or "") and not cands[0].get("impl_trait"):
-            return self.inline_here(cands[0], n["args"], n, recv_value=Opaque("self"))
+            rv = self.env.get(rp.get("id"))
+            return self.inline_here(cands[0], n["args"], n, recv_value=rv if isinstance(rv, sp.Symbol) else Opaque("self"))
         raise Unsupported(n, "method %s (%s)" % (name, d))
 
     # -- statements -----------------------------------------------------------------------------
@@ -618,7 +644,11 @@ class Interp:
     def run_stmt(self, s):
         k = s["k"]
         if k == "LetS":
-            if "init" in s:
+            if "init" in s and "els" in s:
+                if not self.bind_refutable(s["pat"], self.ev(s["init"]), s):
+                    self.ev(s["els"])
+                    raise Unsupported(s, "let-else whose else block does not diverge")
+            elif "init" in s:
                 self.bind(s["pat"], self.ev(s["init"]), s)
             else:
                 for (i, nm) in pat_binds(s["pat"]):
